@@ -2249,7 +2249,7 @@ class _Simu(_IObserver, _params.Updatable, ABC):
             self.Bc_Lagrange,  # type: ignore [arg-type]
         )
         if nBc > 0:
-            nBc += len(self.Bc_dofs_Dirichlet(problemType))
+            nBc += len(np.unique(self.Bc_dofs_Dirichlet(problemType)))
         return nBc
 
     @property
